@@ -781,7 +781,10 @@ def _prepare_results(results, data, debug):
     if debug:
         results = pd.DataFrame({**data, **results})
     else:
-        results = pd.DataFrame(results)
+        # Pass the number of rows explicitly: targets that depend on parameters only are
+        # scalars, and a DataFrame cannot be built from scalars alone.
+        n_rows = len(next(iter(data.values())))
+        results = pd.DataFrame(results, index=pd.RangeIndex(n_rows))
     results = _reorder_columns(results)
 
     return results
